@@ -108,6 +108,45 @@ seq_harness!(seq_array_copy_to_u8, |s, loc, len, off| { if let Ok(a) = s.get_arr
 seq_harness!(seq_stream_read_from_slice, |s, loc, len, off| { let mut src: &[u8] = &loc[..len]; if let Ok(mut d) = s.subslice(0, len) { let _ = src.read_volatile(&mut d); } }, true);
 seq_harness!(seq_stream_write_to_slice, |s, loc, len, off| { let mut dst: &mut [u8] = &mut loc[..len]; if let Ok(d) = s.subslice(0, len) { let _ = dst.write_volatile(&d); } }, false);
 
+// Vec<u8> sink (heap destination: only the guest-side READS are judged; the Vec has room, so reserve() does not reallocate)
+#[kani::proof]
+#[kani::unwind(22)]
+#[kani::stub(std::ptr::read_volatile, stub_read_volatile)]
+#[kani::stub(std::ptr::write_volatile, stub_write_volatile)]
+pub fn seq_stream_write_to_vec() {
+    let mut guest = A8([0u8; 40]);
+    let go: usize = kani::any();
+    let len: usize = kani::any();
+    kani::assume(go < 16 && len <= 8);
+    let gaddr = guest.0.as_ptr() as usize + go;
+    let mut v: Vec<u8> = Vec::with_capacity(32);
+    {
+        let s = unsafe { VolatileSlice::new(guest.0.as_mut_ptr().add(go), 16) };
+        if let Ok(d) = s.subslice(0, len) { let _ = v.write_volatile(&d); }
+    }
+    // reads must tile [gaddr, gaddr+len) in ascending order with aligned accesses; ONE read when len is 1/2/4/8 and aligned
+    let n = unsafe { NLOG };
+    let mut rpos = gaddr;
+    let mut reads = 0;
+    let mut i = 0;
+    while i < MAXLOG {
+        if i < n {
+            let a = unsafe { LOG[i] };
+            if !a.write {
+                assert!(a.width == 1 || a.width == 2 || a.width == 4 || a.width == 8, "C06: volatile access of an unexpected width");
+                assert!(a.addr % a.width == 0 && a.addr == rpos, "C06,C04: reads of guest memory must be aligned and tile the source in ascending order");
+                rpos += a.width;
+                reads += 1;
+            }
+        }
+        i += 1;
+    }
+    assert!(rpos == gaddr + len, "C06,C04: the reads do not cover exactly the transferred bytes");
+    if (len == 1 || len == 2 || len == 4 || len == 8) && gaddr % len == 0 {
+        assert!(reads == 1, "C06: an aligned 1/2/4/8-byte transfer out of guest memory into a Vec must read it with ONE access (torn read)");
+    }
+}
+
 // whole-object forms: the local value is naturally aligned
 macro_rules! obj_seq_harness {
     ($name:ident, $T:ty, $SZ:expr) => {
